@@ -18,7 +18,7 @@ fn len(disconnect: &Disconnect, properties: &Option<DisconnectProperties>) -> us
         let properties_len_len = len_len(properties_len);
         length += properties_len_len + properties_len;
     } else {
-        length += 1;
+        length += 2; // Disconnect Reason Code + empty property length
     }
 
     length
@@ -69,7 +69,7 @@ pub fn write(
 
     let length = len(disconnect, properties);
 
-    if length == 2 {
+    if disconnect.reason_code == DisconnectReasonCode::NormalDisconnection && properties.is_none() {
         buffer.put_u8(0x00);
         return Ok(length);
     }
